@@ -228,3 +228,99 @@ MANIFEST_TEXT["C05"] = {
     "text": "Bounded symbolic execution: applyBlock / revertBlock / updateElementProof run on symbolic leaf hashes for every configuration in the bound; the resulting Trees, NumLeaves and every client's proof are compared (as hash-term identities, i.e. for all hash values at once) with an independently written naive forest and its sibling paths, after apply, after revert against the parent forest, and after re-apply.",
     "note": "Trusted: ideal hash, engine. Control flow here depends only on the (enumerated) sizes and positions, so obligations close in the term layer; bounds as in evidence.bounds.",
 }
+
+SEQ_H = ["harness/cons/v2seq.go", "harness/common/cons_world.go", "harness/common/cons_support.go"]
+SEQ_P = {"weight_uf": 1, "v1cur_fixed": 1, "tax_uf": 1, "spidx_uf": 1, "int_mode": 1, "cur_lift": 1}
+SEQ_REACH = {
+    "VH_SEQ_V2ReviseRevise": ["first-accepted", "second-accepted", "second-rejected"],
+    "VH_SEQ_V2ResolveOnce": ["revised", "resolved", "second-rejected"],
+    "VH_SEQ_V2SameTxnDoubleUse": ["end"],
+    "VH_SEQ_V2ResolutionOutputs": ["end"],
+    "VH_SEQ_V2PolicyLocks": ["accepted", "accepted-at-bound"],
+    "VH_SEQ_V2InputAuth": ["accepted-input", "accepted-attestation", "accepted-contract"],
+    "VH_SEQ_V2RenewalAuth": ["accepted"],
+    "VH_SEQ_V2DoubleSpend": ["first-accepted", "end"],
+    "VH_SEQ_V1DoubleSpend": ["first-accepted", "second-accepted"],
+    "VH_SEQ_ForkHeightsAndV1Locks": ["v1-accepted", "v2-accepted"],
+    "VH_SEQ_V2Conservation": ["end"],
+}
+SEQ_CUTS = ["TransactionWeight/V2TransactionWeight: an arbitrary value (uninterpreted)", "FileContractTax / V2FileContractTax: uninterpreted tax(value) <= value (the same function in validation and application)",
+            "StorageProofLeafIndex: arbitrary index below the leaf count", "V1Currency inside hash pre-images: fixed-width injective code (real variable-length code checked in C11)",
+            "Currency Add/Sub/Cmp lifted to their 128-bit meaning (limb code checked in C15); sum/overflow queries decided in linear integer arithmetic",
+            "all 11 previous timestamps equal (median = arbitrary instant); accumulator of 4 leaves with 2-hash proofs; IDs of elements from earlier blocks are ideal-hash outputs distinct from every ID derived in the current block"]
+SEQ_ASSUME = COMMON_ASSUME + IDEAL_CRYPTO + ["state invariant assumed for elements a valid history can contain: currency values and the siafund pool < 2^120, siafund value <= 10000 and ClaimStart <= pool, v2 contracts satisfy MissedHostValue <= HostOutput, TotalCollateral <= HostOutput, Filesize <= Capacity (accumulator membership of exactly such elements is C04)"]
+
+
+def seq_check(names, extra=None, flagsq=None):
+    runs = []
+    for nm in names:
+        p = dict(SEQ_P)
+        if nm == "VH_SEQ_V1DoubleSpend":
+            p["nkeys"] = 0
+        runs.append({"pkg": "consensus", "harness": SEQ_H, "run": "^%s$" % nm, "params": {"quick": p, "thorough": p},
+                     "flags": {"quick": ["-timeout", "1000", "-maxpaths", "200000"], "thorough": ["-timeout", "1000", "-maxpaths", "400000"]},
+                     "must_reach": {nm: SEQ_REACH[nm]}})
+    return runs
+
+
+PROPS["C02"] = {
+    "runs": seq_check(["VH_SEQ_V2DoubleSpend", "VH_SEQ_V1DoubleSpend", "VH_SEQ_V2SameTxnDoubleUse", "VH_SEQ_V2ResolveOnce"]),
+    "tv_runs": {"quick": 0, "thorough": 0},
+    "bounds": {"quick": "one step from an arbitrary state: two or three transactions of one block touching one element (v2: spend/spend, revise/resolve/any second use incl. all 3x3 resolution kinds; one transaction using a contract twice; v1: form-contract then spend with a symbolic parent ID), fully symbolic contents", "thorough": "same"},
+    "outside": ["second use in a later block is the accumulator's business: C04 (spent leaves are rejected as unspent) and C05 (the leaf is updated to spent)", "v1/v2 mixed pairs other than those listed; more than three transactions"],
+    "stubs": SEQ_CUTS, "assumptions": SEQ_ASSUME,
+}
+PROPS["C03"] = {
+    "runs": seq_check(["VH_SEQ_V2InputAuth", "VH_SEQ_V2RenewalAuth", "VH_SEQ_V2ReviseRevise"]),
+    "tv_runs": {"quick": 0, "thorough": 0},
+    "bounds": {"quick": "accepted => (policy address == parent address, signature valid for THIS transaction's signature hash under the revealed key; contract / revision / renewal signed by the keys of the contract as it currently stands incl. after an earlier in-block revision; attestation signed by its key; Foundation address change only with an input of the management address); public-key policies; content binding of the signature hashes themselves is C12", "thorough": "same"},
+    "outside": ["v1 covered-field signatures at validator level (their hashes are covered in C12)", "threshold / hash / unlock-condition policies at validator level (policy semantics: C14)"],
+    "stubs": SEQ_CUTS + ["ideal signatures: sig valid <=> sig == SIG(pk, msg)"], "assumptions": SEQ_ASSUME,
+}
+PROPS["C07"] = {
+    "runs": seq_check(["VH_SEQ_V2ReviseRevise", "VH_SEQ_V2ResolutionOutputs", "VH_SEQ_V2ResolveOnce"]),
+    "tv_runs": {"quick": 0, "thorough": 0},
+    "bounds": {"quick": "v2 contracts: revision rules against an independent specification, relative to the parent and relative to an earlier in-block revision; resolution creates exactly the outputs of its kind (renewal: final outputs, value split exactly; storage proof: valid outputs; expiration: renter + missed host value) with maturity = MaturityHeight(); at most one resolution per block", "thorough": "same"},
+    "outside": ["v1 contracts (revision/proof/expiry) at validator level", "storage-proof soundness/completeness against a data file (Merkle part): not built in this session"],
+    "stubs": SEQ_CUTS, "assumptions": SEQ_ASSUME,
+}
+PROPS["C08"] = {
+    "runs": seq_check(["VH_SEQ_V2PolicyLocks", "VH_SEQ_ForkHeightsAndV1Locks", "VH_SEQ_V2ResolutionOutputs", "VH_SEQ_V2ReviseRevise"]),
+    "tv_runs": {"quick": 0, "thorough": 0},
+    "bounds": {"quick": "symbolic heights, fork heights and maturity delay: accepted => bound respected with the exact comparison and operand (v2 policy locks use the tip height, maturity/timelocks the child height; storage proof >= proof height; expiration > expiration height; revision <= proof height; v1 < require height; v2 >= allow height), plus reachability of acceptance exactly at the bound for policy locks", "thorough": "same"},
+    "outside": ["time locks (after(t)) at validator level (policy semantics incl. after(): C14)", "v1 contract window rules"],
+    "stubs": SEQ_CUTS, "assumptions": SEQ_ASSUME,
+}
+PROPS["C01"] = {
+    "runs": seq_check(["VH_SEQ_V2Conservation", "VH_SEQ_V2ResolutionOutputs", "VH_SEQ_V2ReviseRevise"]),
+    "tv_runs": {"quick": 0, "thorough": 0},
+    "bounds": {"quick": "one v2 transaction from an arbitrary state: (1 input, 2 outputs, optional new contract, fee): value of created elements + locked contract value + pool increase + fee == value spent, computed on the diffs the real ApplyV2Transaction produced; renewal splits the old contract exactly; revisions keep the contract total and keep the missed host value <= host value (so an expiry never pays more than is locked)", "thorough": "same"},
+    "outside": ["v1 transactions, siafund claims, block-level reward/subsidy equation, chains (only the one-step equations above are decided)"],
+    "stubs": SEQ_CUTS, "assumptions": SEQ_ASSUME,
+}
+for pid, txt in [("C01", "conservation equations on the diffs produced by the real validation+application code"), ("C02", "no second use of an element inside one block"),
+                 ("C03", "accepted => authorised by the right keys over this very content"), ("C07", "contract revision/resolution rules against an independent specification"),
+                 ("C08", "accepted => height bound respected (exact operand and comparison), acceptance at the bound reachable")]:
+    MANIFEST_TEXT[pid] = {
+        "text": "Bounded model checking, inductive step: from an arbitrary symbolic state (network parameters, heights, pool, accumulator roots) satisfying the stated representation invariant, the real ValidateTransaction / ValidateV2Transaction and MidState.Apply* are executed symbolically on fully symbolic transactions of small shapes (one to three transactions of one block) and the solver decides: " + txt + ". Counterexamples are concrete transactions/states; those depending on hash or signature values are reported as symbolic-only.",
+        "note": "Trusted: ideal hash/signature, z3 (bit-vector and linear-integer renderings), engine, the listed summaries (weight, tax, storage-proof index, 128-bit currency lifting). Shapes as in evidence.bounds; chains are covered only through the invariant.",
+    }
+PROPS["C13"] = {
+    "runs": [
+        {"pkg": "consensus", "harness": ["harness/c13/c13.go", "harness/common/cons_world.go", "harness/common/cons_support.go"], "run": "^VH_C13_(WorkAddSubCmp|ValidateHeader|HeavierAsymmetric)$",
+         "params": {"quick": {"work_lift": 0, "int_mode": 1, "target_uf": 1, "time_lift": 1, "ntimestamps": 3}, "thorough": {"work_lift": 0, "int_mode": 1, "target_uf": 1, "time_lift": 1, "ntimestamps": 4}},
+         "flags": {"quick": ["-timeout", "5000"], "thorough": ["-timeout", "20000"]},
+         "must_reach": {"VH_C13_WorkAddSubCmp": ["end"], "VH_C13_ValidateHeader": ["accepted"], "VH_C13_HeavierAsymmetric": ["end"]},
+         "tv_harnesses": ["VH_C13_WorkAddSubCmp"]},
+    ],
+    "tv_runs": {"quick": 2, "thorough": 6},
+    "bounds": {"quick": "Work.add/sub/Cmp/min/max: all 2^256 x 2^256 operands (real limb code vs independent carry-chain reference); ValidateHeader accepted <=> (parent ID, timestamp >= median, nonce factor, ID <= target) with 3 distinct previous timestamps and the median checked against its definition; 'sufficiently heavier' asymmetric", "thorough": "4 distinct timestamps"},
+    "outside": ["retargeting itself (adjustDifficultyV2 / FinalCut clamp, totality, monotone total work) and header-vs-block equivalence: harnesses exist (VH_C13_FinalCutClamp, V2Clamp, RetargetTotal, HeaderVsBlock) but z3 4.8.12 does not return within its time limit on the 256-bit multiply/divide chains, in bit-vector or integer rendering; not claimed",
+                "pre-v2 eras (big.Int target arithmetic, float64 clamp)", "invTarget is an uninterpreted function in ValidateHeader (the FinalCut target is 'the' inverse of the difficulty, not checked to be the floored inverse)"],
+    "stubs": ["invTarget: uninterpreted", "time.Time.Sub: (t-u)*1e9 under |t-u| < 2^33 s"],
+    "assumptions": COMMON_ASSUME + IDEAL_CRYPTO,
+}
+MANIFEST_TEXT["C13"] = {
+    "text": "Bounded model checking of the parts of proof-of-work handling that the solvers decide: the 256-bit Work arithmetic used by retargeting (full width, against an independent reference), header validation as an equivalence with the four header rules (median of the previous timestamps checked against its definition), and asymmetry of the reorg threshold. The retargeting clamp/totality obligations are NOT claimed (solver does not terminate); see evidence.outside_bounds.",
+    "note": "Partial claim. Trusted: z3, engine, ideal hash for the block ID.",
+}
